@@ -65,6 +65,10 @@ func (c *Ctx) cevalBoolEnv(e ast.Expr, env *CEnv) (res string) {
 	defer func() {
 		if r := recover(); r != nil {
 			if ce, ok := r.(cerr); ok {
+				if c.dry > 0 {
+					res = "false"
+					return
+				}
 				c.bindingErrors = append(c.bindingErrors, fmt.Sprintf("%s: %s", c.eng.exprString(e), ce.msg))
 				res = "false"
 				return
@@ -500,6 +504,18 @@ func (env *CEnv) evalCall(x *ast.CallExpr) (Value, types.Type) {
 			}
 			name, _ := strconv.Unquote(lit.Value)
 			return IntV{c.heapGet(env.s, "X."+name, sInt)}, tInt
+		case "variant":
+			// value of the decreases-expression of loop n at its current head (usable inside that loop's body)
+			lit, ok := x.Args[0].(*ast.BasicLit)
+			if !ok {
+				cfail("variant needs a loop ordinal")
+			}
+			n, _ := strconv.Atoi(lit.Value)
+			v, ok := c.variantAt[n]
+			if !ok {
+				cfail("variant(%d): loop has no decreases clause or is not active", n)
+			}
+			return IntV{v}, tInt
 		case "ghostat":
 			lit, ok := x.Args[0].(*ast.BasicLit)
 			if !ok {
